@@ -358,6 +358,18 @@ type Origin struct {
 	Guards  []Guard
 	Args    []ssa.Value
 	ViaCall []string
+	AsType  types.Type // static type the root was asserted/dereferenced to
+}
+
+// RootType is the type of the object the path starts at.
+func (o Origin) RootType() types.Type {
+	if o.AsType != nil {
+		return o.AsType
+	}
+	if o.Root != nil {
+		return o.Root.Type()
+	}
+	return nil
 }
 
 func (o Origin) PathStr() string { return strings.Join(o.Path, ".") }
@@ -369,9 +381,9 @@ func (o Origin) String() string {
 	}
 	switch o.Kind {
 	case "param":
-		return "param(" + typeStr(o.Root.Type()) + ")" + p
+		return "param(" + typeStr(o.RootType()) + ")" + p
 	case "freevar":
-		return "freevar(" + typeStr(o.Root.Type()) + ")" + p
+		return "freevar(" + typeStr(o.RootType()) + ")" + p
 	case "const":
 		return "const " + exprStr(o.Val)
 	case "call":
@@ -479,7 +491,15 @@ func (t *tracer) trace(v ssa.Value, path []string) []Origin {
 	case *ssa.MakeInterface:
 		return t.trace(x.X, path)
 	case *ssa.TypeAssert:
-		return t.trace(x.X, path)
+		os := t.trace(x.X, path)
+		if _, isIface := x.AssertedType.Underlying().(*types.Interface); !isIface {
+			for i := range os {
+				if os[i].AsType == nil && len(os[i].Path) == len(path) {
+					os[i].AsType = x.AssertedType
+				}
+			}
+		}
+		return os
 	case *ssa.Slice:
 		return t.trace(x.X, path)
 	case *ssa.FieldAddr:
@@ -500,8 +520,12 @@ func (t *tracer) trace(v ssa.Value, path []string) []Origin {
 			case *ssa.Global:
 				return []Origin{{Kind: "global", Root: a, Val: a, Path: path}}
 			case *ssa.FreeVar:
-				// captured variable (pointer to it)
-				return []Origin{{Kind: "freevar", Root: a, Val: a, Path: path}}
+				// captured variable (pointer to it): resolve to the enclosing
+				// function's parameter when the cell is only initialised from it
+				if p := capturedParam(a); p != nil {
+					return []Origin{{Kind: "param", Root: p, Val: p, Path: path}}
+				}
+				return []Origin{{Kind: "freevar", Root: a, Val: a, Path: path, AsType: derefType(a.Type())}}
 			case *ssa.IndexAddr:
 				return []Origin{{Kind: "index", Val: x, Path: path, Args: []ssa.Value{a.X, a.Index}}}
 			default:
@@ -526,7 +550,15 @@ func (t *tracer) trace(v ssa.Value, path []string) []Origin {
 			return t.traceCall(tup, x.Index, path)
 		case *ssa.TypeAssert:
 			if x.Index == 0 {
-				return t.trace(tup.X, path)
+				os := t.trace(tup.X, path)
+				if _, isIface := tup.AssertedType.Underlying().(*types.Interface); !isIface {
+					for i := range os {
+						if os[i].AsType == nil && len(os[i].Path) == len(path) {
+							os[i].AsType = tup.AssertedType
+						}
+					}
+				}
+				return os
 			}
 			return []Origin{{Kind: "commaok", Val: x, Path: path}}
 		case *ssa.Lookup:
@@ -959,6 +991,55 @@ func dominatingFieldStore(load *ssa.UnOp, fa *ssa.FieldAddr) ssa.Value {
 	}
 	if s.Block().Dominates(load.Block()) {
 		return s.Val
+	}
+	return nil
+}
+
+// capturedParam: the free variable is a cell of the enclosing function that is
+// stored exactly once, from a parameter of that function (or, transitively,
+// of an outer one).
+func capturedParam(fv *ssa.FreeVar) *ssa.Parameter {
+	f := fv.Parent()
+	for depth := 0; depth < 4 && f != nil && f.Parent() != nil; depth++ {
+		idx := -1
+		for i, x := range f.FreeVars {
+			if x == fv {
+				idx = i
+			}
+		}
+		if idx < 0 {
+			return nil
+		}
+		var binding ssa.Value
+		for _, b := range f.Parent().Blocks {
+			for _, in := range b.Instrs {
+				if mc, ok := in.(*ssa.MakeClosure); ok && mc.Fn == f && idx < len(mc.Bindings) {
+					binding = mc.Bindings[idx]
+				}
+			}
+		}
+		switch b := binding.(type) {
+		case *ssa.Alloc:
+			var stores []*ssa.Store
+			if refs := b.Referrers(); refs != nil {
+				for _, r := range *refs {
+					if s, ok := r.(*ssa.Store); ok && s.Addr == b {
+						stores = append(stores, s)
+					}
+				}
+			}
+			if len(stores) == 1 {
+				if p, ok := stores[0].Val.(*ssa.Parameter); ok {
+					return p
+				}
+			}
+			return nil
+		case *ssa.FreeVar:
+			fv = b
+			f = f.Parent()
+			continue
+		}
+		return nil
 	}
 	return nil
 }
